@@ -1,0 +1,163 @@
+//go:build verif
+
+// Test equipment for property C31 (public/private view conversions). Add-only;
+// exports the unexported conversion functions and private struct types of
+// u_public.go / handshake_messages.go as `any`-typed wrappers so that an
+// external harness can drive them by reflection.
+package tls
+
+import (
+	"crypto"
+	"crypto/ecdh"
+	"crypto/mlkem"
+	"crypto/rand"
+	"crypto/sha256"
+	"hash"
+	"reflect"
+)
+
+// VerifC31Pair describes one public/private conversion pair.
+type VerifC31Pair struct {
+	Name    string
+	Pub     reflect.Type      // public struct type
+	Priv    reflect.Type      // private struct type
+	NewPub  func() any        // pointer to a zero public struct
+	NewPriv func() any        // pointer to a zero private struct
+	ToPriv  func(pub any) any // public pointer -> private pointer (conversion under test)
+	ToPub   func(priv any) any
+	NilPub  func() any // typed nil public pointer (nil for value receivers)
+	NilPriv func() any
+}
+
+func VerifC31Pairs() []VerifC31Pair {
+	return []VerifC31Pair{
+		{Name: "ClientHello", Pub: reflect.TypeOf(PubClientHelloMsg{}), Priv: reflect.TypeOf(clientHelloMsg{}),
+			NewPub: func() any { return &PubClientHelloMsg{} }, NewPriv: func() any { return &clientHelloMsg{} },
+			ToPriv: func(p any) any { return p.(*PubClientHelloMsg).getPrivatePtr() },
+			ToPub:  func(p any) any { return p.(*clientHelloMsg).getPublicPtr() },
+			NilPub: func() any { return (*PubClientHelloMsg)(nil) }, NilPriv: func() any { return (*clientHelloMsg)(nil) }},
+		{Name: "ServerHello", Pub: reflect.TypeOf(PubServerHelloMsg{}), Priv: reflect.TypeOf(serverHelloMsg{}),
+			NewPub: func() any { return &PubServerHelloMsg{} }, NewPriv: func() any { return &serverHelloMsg{} },
+			ToPriv: func(p any) any { return p.(*PubServerHelloMsg).getPrivatePtr() },
+			ToPub:  func(p any) any { return p.(*serverHelloMsg).getPublicPtr() },
+			NilPub: func() any { return (*PubServerHelloMsg)(nil) }, NilPriv: func() any { return (*serverHelloMsg)(nil) }},
+		{Name: "CertReq13", Pub: reflect.TypeOf(CertificateRequestMsgTLS13{}), Priv: reflect.TypeOf(certificateRequestMsgTLS13{}),
+			NewPub: func() any { return &CertificateRequestMsgTLS13{} }, NewPriv: func() any { return &certificateRequestMsgTLS13{} },
+			ToPriv: func(p any) any { return p.(*CertificateRequestMsgTLS13).toPrivate() },
+			ToPub:  func(p any) any { return p.(*certificateRequestMsgTLS13).toPublic() },
+			NilPub: func() any { return (*CertificateRequestMsgTLS13)(nil) }, NilPriv: func() any { return (*certificateRequestMsgTLS13)(nil) }},
+		{Name: "KeyShare", Pub: reflect.TypeOf(KeyShare{}), Priv: reflect.TypeOf(keyShare{}),
+			NewPub: func() any { return &KeyShare{} }, NewPriv: func() any { return &keyShare{} },
+			ToPriv: func(p any) any { r := KeyShares([]KeyShare{*p.(*KeyShare)}).ToPrivate(); return &r[0] },
+			ToPub:  func(p any) any { r := keyShares([]keyShare{*p.(*keyShare)}).ToPublic(); return &r[0] }},
+		{Name: "PskIdentity", Pub: reflect.TypeOf(PskIdentity{}), Priv: reflect.TypeOf(pskIdentity{}),
+			NewPub: func() any { return &PskIdentity{} }, NewPriv: func() any { return &pskIdentity{} },
+			ToPriv: func(p any) any { r := PskIdentities([]PskIdentity{*p.(*PskIdentity)}).ToPrivate(); return &r[0] },
+			ToPub:  func(p any) any { r := pskIdentities([]pskIdentity{*p.(*pskIdentity)}).ToPublic(); return &r[0] }},
+		{Name: "TicketKey", Pub: reflect.TypeOf(TicketKey{}), Priv: reflect.TypeOf(ticketKey{}),
+			NewPub: func() any { return &TicketKey{} }, NewPriv: func() any { return &ticketKey{} },
+			ToPriv: func(p any) any { r := p.(*TicketKey).ToPrivate(); return &r },
+			ToPub:  func(p any) any { r := p.(*ticketKey).ToPublic(); return &r }},
+		{Name: "KeySharePrivateKeys", Pub: reflect.TypeOf(KeySharePrivateKeys{}), Priv: reflect.TypeOf(keySharePrivateKeys{}),
+			NewPub: func() any { return &KeySharePrivateKeys{} }, NewPriv: func() any { return &keySharePrivateKeys{} },
+			ToPriv: func(p any) any { return p.(*KeySharePrivateKeys).ToPrivate() },
+			ToPub:  func(p any) any { return p.(*keySharePrivateKeys).ToPublic() },
+			NilPub: func() any { return (*KeySharePrivateKeys)(nil) }, NilPriv: func() any { return (*keySharePrivateKeys)(nil) }},
+		{Name: "KemPrivateKey", Pub: reflect.TypeOf(KemPrivateKey{}), Priv: reflect.TypeOf(kemPrivateKey{}),
+			NewPub: func() any { return &KemPrivateKey{} }, NewPriv: func() any { return &kemPrivateKey{} },
+			ToPriv: func(p any) any { return p.(*KemPrivateKey).ToPrivate() },
+			ToPub:  func(p any) any { return p.(*kemPrivateKey).ToPublic() },
+			NilPub: func() any { return (*KemPrivateKey)(nil) }, NilPriv: func() any { return (*kemPrivateKey)(nil) }},
+		{Name: "CipherSuiteTLS13", Pub: reflect.TypeOf(PubCipherSuiteTLS13{}), Priv: reflect.TypeOf(cipherSuiteTLS13{}),
+			NewPub: func() any { return &PubCipherSuiteTLS13{} }, NewPriv: func() any { return &cipherSuiteTLS13{} },
+			ToPriv: func(p any) any { return p.(*PubCipherSuiteTLS13).toPrivate() },
+			ToPub:  func(p any) any { return p.(*cipherSuiteTLS13).toPublic() },
+			NilPub: func() any { return (*PubCipherSuiteTLS13)(nil) }, NilPriv: func() any { return (*cipherSuiteTLS13)(nil) }},
+		{Name: "CipherSuite", Pub: reflect.TypeOf(PubCipherSuite{}), Priv: reflect.TypeOf(cipherSuite{}),
+			NewPub: func() any { return &PubCipherSuite{} }, NewPriv: func() any { return &cipherSuite{} },
+			ToPriv: func(p any) any { return p.(*PubCipherSuite).getPrivatePtr() },
+			ToPub:  func(p any) any { r := p.(*cipherSuite).getPublicObj(); return &r },
+			NilPub: func() any { return (*PubCipherSuite)(nil) }, NilPriv: func() any { return (*cipherSuite)(nil) }},
+		{Name: "FinishedHash", Pub: reflect.TypeOf(FinishedHash{}), Priv: reflect.TypeOf(finishedHash{}),
+			NewPub: func() any { return &FinishedHash{} }, NewPriv: func() any { return &finishedHash{} },
+			ToPriv: func(p any) any { r := p.(*FinishedHash).getPrivateObj(); return &r },
+			ToPub:  func(p any) any { r := p.(*finishedHash).getPublicObj(); return &r }},
+	}
+}
+
+// Slice-level conversions (nil-ness and element order are part of what is observed).
+func VerifC31KeySharesRoundTrip(in []KeyShare) []KeyShare {
+	return keyShares(KeyShares(in).ToPrivate()).ToPublic()
+}
+func VerifC31PskIdentitiesRoundTrip(in []PskIdentity) []PskIdentity {
+	return pskIdentities(PskIdentities(in).ToPrivate()).ToPublic()
+}
+func VerifC31TicketKeysRoundTrip(in []TicketKey) []TicketKey {
+	return ticketKeys(TicketKeys(in).ToPrivate()).ToPublic()
+}
+
+// One-way slice conversions; the private slice travels as `any`.
+func VerifC31KeySharesToPrivate(in []KeyShare) any        { return KeyShares(in).ToPrivate() }
+func VerifC31KeySharesToPublic(in any) []KeyShare         { return keyShares(in.([]keyShare)).ToPublic() }
+func VerifC31PskIdentitiesToPrivate(in []PskIdentity) any { return PskIdentities(in).ToPrivate() }
+func VerifC31PskIdentitiesToPublic(in any) []PskIdentity {
+	return pskIdentities(in.([]pskIdentity)).ToPublic()
+}
+func VerifC31TicketKeysToPrivate(in []TicketKey) any { return TicketKeys(in).ToPrivate() }
+func VerifC31TicketKeysToPublic(in any) []TicketKey  { return ticketKeys(in.([]ticketKey)).ToPublic() }
+
+// VerifC31Pool: sample values for field types that cannot be invented by reflection
+// (funcs, interfaces, pointers to foreign key types). The harness picks, per field, a pool
+// value assignable to the field's type.
+func VerifC31Pool() []any {
+	var pool []any
+	for _, s := range cipherSuites {
+		if s.ka != nil {
+			pool = append(pool, s.ka)
+		}
+		if s.cipher != nil {
+			pool = append(pool, s.cipher)
+		}
+		if s.mac != nil {
+			pool = append(pool, s.mac)
+		}
+		if s.aead != nil {
+			pool = append(pool, s.aead)
+		}
+	}
+	for _, s := range cipherSuitesTLS13 {
+		pool = append(pool, s.aead)
+	}
+	pool = append(pool, hash.Hash(sha256.New()), hash.Hash(sha256.New()), hash.Hash(crypto.SHA384.New()))
+	pool = append(pool, prfFunc(prf12(sha256.New)), prfFunc(prf10))
+	pool = append(pool, prfFuncOld(func(result, secret, label, seed []byte) {}))
+	for i := 0; i < 3; i++ {
+		k, _ := ecdh.X25519().GenerateKey(rand.Reader)
+		pool = append(pool, k)
+	}
+	k2, _ := ecdh.P256().GenerateKey(rand.Reader)
+	pool = append(pool, k2)
+	for i := 0; i < 2; i++ {
+		d, _ := mlkem.GenerateKey768()
+		pool = append(pool, d)
+	}
+	return pool
+}
+
+// ---- ClientHello codec entry points (handshake_messages.go) ----
+
+// VerifC31MarshalMsg: clientHelloMsg.marshalMsg(false) of the private form of p, ignoring Raw.
+func VerifC31MarshalMsg(p *PubClientHelloMsg) ([]byte, error) {
+	return p.getPrivatePtr().marshalMsg(false)
+}
+
+// VerifC31Extensions: the private-only `extensions` list recorded by unmarshal.
+func VerifC31Extensions(data []byte) ([]uint16, bool) {
+	m := &clientHelloMsg{}
+	ok := m.unmarshal(data)
+	return m.extensions, ok
+}
+
+// VerifC31SetECH sets the unexported encryptedClientHello field of the public view.
+func VerifC31SetECH(p *PubClientHelloMsg, ech []byte) { p.encryptedClientHello = ech }
+func VerifC31GetECH(p *PubClientHelloMsg) []byte      { return p.encryptedClientHello }
